@@ -37,15 +37,22 @@ type sinkCall struct {
 type sink struct {
 	calls []sinkCall
 	now   *int
+	slow  bool // concurrent drivers: every sink call contains a scheduling point
 }
 
 func (s *sink) Write(p []byte) (int, error) {
+	if s.slow {
+		vsched.Yield() // a sink call takes time: other threads can act while the syncer is inside it
+	}
 	*s.now++
 	s.calls = append(s.calls, sinkCall{data: append([]byte(nil), p...), at: *s.now})
 	return len(p), nil
 }
 
 func (s *sink) Sync() error {
+	if s.slow {
+		vsched.Yield()
+	}
 	*s.now++
 	s.calls = append(s.calls, sinkCall{sync: true, at: *s.now})
 	return nil
@@ -407,12 +414,13 @@ type concRun struct {
 	prelude []cop
 	threads [][]cop
 
-	now  int
-	sk   *sink
-	recs []*opRec
-	err  string
-	key  string
-	end  string
+	now     int
+	quiesce int // time at which every thread had finished and the flush goroutine was waiting again
+	sk      *sink
+	recs    []*opRec
+	err     string
+	key     string
+	end     string
 }
 
 func (c *concRun) do(ws *zapcore.BufferedWriteSyncer, clk *clock, thr, idx int, op cop, nextID *byte) {
@@ -433,14 +441,16 @@ func (c *concRun) do(ws *zapcore.BufferedWriteSyncer, clk *clock, thr, idx int, 
 	case "Stop":
 		r.err = ws.Stop()
 	case "Tick":
-		vsched.TrySend(clk.ch, time.Unix(1, 0))
+		if vsched.TrySend(clk.ch, time.Unix(1, 0)) {
+			r.n = 1 // delivered (the ticker channel had room)
+		}
 	}
 	c.now++
 	r.ret = c.now
 }
 
 func (c *concRun) body() {
-	c.sk = &sink{now: &c.now}
+	c.sk = &sink{now: &c.now, slow: true}
 	clk := &clock{ch: make(chan time.Time, 1)}
 	ws := &zapcore.BufferedWriteSyncer{WS: c.sk, Size: c.size, Clock: clk, FlushInterval: time.Hour}
 	var id byte
@@ -461,6 +471,10 @@ func (c *concRun) body() {
 		})
 	}
 	wg.Wait()
+	// let the flush goroutine finish processing any delivered tick (it runs until it waits again)
+	vsched.WaitIdle()
+	c.now++
+	c.quiesce = c.now
 	// epilogue: stop (if not yet), then flush whatever a late Write left behind
 	c.now++
 	ep := &opRec{thr: 0, idx: 100, op: cop{"Stop", 0}, inv: c.now}
@@ -577,6 +591,44 @@ func (c *concRun) check() (string, error) {
 			}
 		}
 		return fmt.Sprintf("sink not synced between its last covered write and the return of %s", r.op.kind)
+	}
+	// 5b. a delivered tick that the flush goroutine could process (no Stop in the program): once it has been
+	// processed - at the latest when everything is quiescent - every write that had returned before the tick
+	// was delivered is in the sink and the sink was synced after it
+	hasStop := false
+	for _, r := range c.recs {
+		if r.op.kind == "Stop" && r.idx != 100 {
+			hasStop = true
+		}
+	}
+	if !hasStop && c.quiesce > 0 {
+		for _, r := range c.recs {
+			if r.op.kind != "Tick" || r.n != 1 {
+				continue
+			}
+			last := 0
+			for _, w := range writes {
+				if w.ret < r.inv {
+					if sunkAt[w.id] > c.quiesce {
+						return "", fmt.Errorf("tick delivered by thread %d was processed, but write %v (returned before the tick) was still not in the sink when everything had come to rest", r.thr, w.id)
+					}
+					if sunkAt[w.id] > last {
+						last = sunkAt[w.id]
+					}
+				}
+			}
+			if last > 0 {
+				ok := false
+				for _, sy := range syncs {
+					if sy > last && sy < c.quiesce {
+						ok = true
+					}
+				}
+				if !ok {
+					return "", fmt.Errorf("tick delivered by thread %d was processed, but the sink was not synced after the writes that had returned before the tick", r.thr)
+				}
+			}
+		}
 	}
 	sat := map[*opRec]string{}
 	for _, r := range c.recs {
